@@ -266,7 +266,7 @@ func TestC14(t *testing.T) {
 	st.Note("exhaustive: all words of <= %d segments over {ordinary, IFS white space, IFS non-white-space, non-IFS white space, quoted ordinary, quoted IFS characters, empty quotes} x %d IFS settings (unset, default, ' ,', ',', ':', empty, multi-byte, two non-white-space, newline+comma, an invalid byte), word built as AST; a quarter of them also written as source text and parsed", maxn, len(c14Cfgs))
 
 	// (b) random longer words
-	n := 60000
+	n := 1000000
 	if thorough() {
 		n = 30000000
 	}
